@@ -1506,6 +1506,109 @@ func o1(w *World, r *Report) {
 	}
 }
 
+// w6: what a stored reward record says after decoding is what was written. Each
+// 256-bit counter of Reward that Decode (helpers included) assigns is computed from
+// one field of the decoded message and from nothing else — in particular not from
+// other counters of the record (the per-block counters issued/withdrawn/slashed are
+// not totals; a withdrawable amount "reconstructed" from them is not what was
+// stored) — every assignment of a counter names the same message field, and no two
+// counters share one.
+func w6(w *World, r *Report) {
+	dec := needFn(r, "W-6", w, fref{pkgStake, "Reward", "Decode"})
+	if dec == nil {
+		return
+	}
+	rec := w.Named(pkgStake, "Reward")
+	type src struct{ owner, field string }
+	loadsOf := func(v ssa.Value) (recReads []string, wire []src) {
+		seen := map[ssa.Value]bool{}
+		var visit func(v ssa.Value, d int)
+		visit = func(v ssa.Value, d int) {
+			if v == nil || seen[v] || d > 8 || len(seen) > 300 {
+				return
+			}
+			seen[v] = true
+			note := func(t types.Type, idx int) bool {
+				n, f := fieldOf(t, idx)
+				if n == nil || f == nil {
+					return false
+				}
+				if rec != nil && n.Obj() == rec.Obj() {
+					recReads = append(recReads, f.Name())
+				} else {
+					wire = append(wire, src{n.Obj().Name(), f.Name()})
+				}
+				return true
+			}
+			switch x := v.(type) {
+			case *ssa.UnOp:
+				if fa, ok := x.X.(*ssa.FieldAddr); ok && x.Op == token.MUL && note(fa.X.Type(), fa.Field) {
+					return
+				}
+			case *ssa.Field:
+				if note(x.X.Type(), x.Field) {
+					return
+				}
+			}
+			if in, ok := v.(ssa.Instruction); ok {
+				for _, op := range in.Operands(nil) {
+					if op != nil && *op != nil {
+						visit(*op, d+1)
+					}
+				}
+			}
+		}
+		visit(v, 0)
+		return
+	}
+	byField := map[string]map[string]bool{}
+	var fields []string
+	for _, fn := range w.withModuleCallees(dec, 2) {
+		if w.FuncPkgPath(fn) != absPkg(pkgStake) {
+			continue
+		}
+		for _, fs := range w.fieldStores(fn) {
+			if rec == nil || fs.Owner == nil || fs.Owner.Obj() != rec.Obj() || !strings.HasSuffix(typeStr(fs.Field.Type()), "uint256.Int") {
+				continue
+			}
+			f := fs.Field.Name()
+			recReads, wire := loadsOf(fs.Val)
+			ws := map[string]bool{}
+			for _, s := range wire {
+				ws[s.owner+"."+s.field] = true
+			}
+			if byField[f] == nil {
+				byField[f] = map[string]bool{}
+				fields = append(fields, f)
+			}
+			for k := range ws {
+				byField[f][k] = true
+			}
+			key := fmt.Sprintf("Reward.%s:decoded-from-its-own-wire-field:%s", f, w.FName(fn))
+			if len(recReads) > 0 || len(ws) != 1 {
+				sort.Strings(recReads)
+				r.Violate("W-6", key, fmt.Sprintf("a decoded reward record's %s is computed from %d message field(s) %v and the record's own counters %v: the stored amount is not what decoding yields (the per-block counters are not totals)", f, len(ws), sortedKeys(ws), recReads), nil, site(w, fs.In))
+			} else {
+				r.OK("W-6", key, "assigned from the one message field "+sortedKeys(ws)[0]+" only", site(w, fs.In))
+			}
+		}
+	}
+	sort.Strings(fields)
+	owner := map[string]string{}
+	for _, f := range fields {
+		ks := sortedKeys(byField[f])
+		ok := len(ks) == 1
+		why := fmt.Sprintf("%v", ks)
+		if ok {
+			if o, dup := owner[ks[0]]; dup {
+				ok, why = false, ks[0]+" is also the source of "+o
+			}
+			owner[ks[0]] = f
+		}
+		r.Check(ok, "W-6", "Reward."+f+":one-wire-field", "every assignment of the counter in the decoder names the same message field, which no other counter uses", "the decoder fills "+f+" from "+why, fnSite(w, dec))
+	}
+}
+
 var reRefund = regexp.MustCompile(`^\(p0\.Height(\(\))? \+ (p0\.GovHandler|recv\.govParams)\.LazyRewardBlocks\(\)\)$`)
 
 func o2(w *World, r *Report) {
@@ -1649,6 +1752,31 @@ func o2(w *World, r *Report) {
 					}
 					ok = all
 				}
+				// `setFrozen(s.frozenUntil(h))`: the argument is handed back by a helper that
+				// assigns the refund height of that very stake on every path
+				if hc, isCall := stripConv(arg).(*ssa.Call); !ok && isCall {
+					if cal := hc.Common().StaticCallee(); cal != nil && w.InModule(cal) && cal.Blocks != nil {
+						for pi, p := range cal.Params {
+							if !returnsParam(cal, pi) {
+								continue
+							}
+							for _, fs := range w.fieldStores(cal) {
+								if fs.Field.Name() != "RefundHeight" || stripConv(fs.Addr.(*ssa.FieldAddr).X) != ssa.Value(p) {
+									continue
+								}
+								all := true
+								for _, b := range cal.Blocks {
+									if rt, isR := lastInstr(b).(*ssa.Return); isR && b != cal.Recover && !instrDominates(fs.In, rt) {
+										all = false
+									}
+								}
+								if all {
+									ok = true
+								}
+							}
+						}
+					}
+				}
 				key := refStr(ref) + ":frozen-after-refund-height:" + w.Canon(arg)
 				if fn != root {
 					key = refStr(ref) + ":frozen-after-refund-height:" + w.FName(fn) + ":" + w.Canon(arg)
@@ -1707,7 +1835,7 @@ func o3(w *World, r *Report) {
 // ---------------------------------------------------------------- C13
 
 func checkC13(w *World, r *Report) {
-	r.Explanation = "Structural clause of C13: (W-1) rewards are issued only under `vote.SignedLastBlock`, to the delegatee read by the vote's validator address from the immutable delegatee ledger at height-4 (clamped), and Reward.Issue has no other caller path; (W-2) per stake the issued amount is uint64(stake.Power) x RewardPerPower() on the reward object keyed by the stake's owner (existing or new), which is then recorded in the consensus overlay; (W-3) Issue adds its argument to the withdrawable total and Withdraw subtracts it; (W-4) a withdrawal passes validation only if the requested amount does not exceed the withdrawable total of the sender's reward object in the overlay selected by exec, on every success path for that tx type, and the execution moves one and the same amount (C02 V-2)."
+	r.Explanation = "Structural clause of C13: (W-1) rewards are issued only under `vote.SignedLastBlock`, to the delegatee read by the vote's validator address from the immutable delegatee ledger at height-4 (clamped), and Reward.Issue has no other caller path; (W-2) per stake the issued amount is uint64(stake.Power) x RewardPerPower() on the reward object keyed by the stake's owner (existing or new), which is then recorded in the consensus overlay; (W-3) Issue adds its argument to the withdrawable total and Withdraw subtracts it; (W-4) a withdrawal passes validation only if the requested amount does not exceed the withdrawable total of the sender's reward object in the overlay selected by exec, on every success path for that tx type, and the execution moves one and the same amount (C02 V-2). (W-6) decoding a stored reward record yields what was stored: each 256-bit counter that Reward.Decode (helpers included) assigns is computed from one field of the decoded message and from nothing else — not from other counters of the record — every assignment of a counter names the same message field and no two counters share one."
 	r.NotCovered = "reward totals over histories; that height-4 is the height consensus used for the voting power (the code additionally skips a validator whose recorded power differs from the vote's); the clamp for heights below 4."
 	bb := needFn(r, "W-1", w, fref{pkgStake, "StakeCtrler", "BeginBlock"})
 	if bb != nil {
@@ -1898,6 +2026,8 @@ func checkC13(w *World, r *Report) {
 	if nW5 == 0 {
 		r.Undecided("W-5", "constructors", "no function assigns two 256-bit fields of a Reward")
 	}
+	w6(w, r)
+	r.Floor("W-6", 4, "decoded counters of a reward record")
 	r.Floor("W-1", 5, "issuance condition")
 	r.Floor("W-2", 3, "issuance amount")
 	r.Floor("W-3", 2, "reward arithmetic")
